@@ -623,3 +623,35 @@ def t_r4b_guards_constant(p: Project, rep: Report):
                     sites += 1
                     rep.check("T-R4b", f"{who.split(' ')[0]}.{attr}:assigned-in:{modname.split('.')[-1]}.{qn}", False, f"{qn} assigns {who}.{attr} at run time: the guard's switch becomes state shared by every element of that type in the process - a call that raises before restoring it (or another thread) leaves every later value unchecked / checked differently", tloc(p, st))
     rep.check("T-R4b", "guard-switches:declarations-only", sites == 0, "", f"{len(types)} element types, {len(p.modules)} modules searched")
+
+
+def t_r11_none_only_for_the_empty_text(p: Project, rep: Report):
+    """a value that is not the empty text is not read as `nothing there`"""
+    rep.rule("T-R11", "the String / NagString / Integer readers return None (through enforce_required) exactly for the EMPTY text: on every path that returns enforce_required(None) the conditions established are an emptiness test of the value as received (value == '', not value, len(value) == 0) - a test of a transformed copy (value.strip(), value.replace(...)) also swallows texts that are not empty: ' ' is a value the writer emits and the element data the document holds, and reading it as None drops an optional element and refuses a required one")
+    scal, types = scalar_types(p)
+    n = 0
+    for name in ("String", "NagString", "Integer"):
+        ci = scal[name]
+        fam = D.family(ci, "convert")
+        h = fam.get("str") if fam else None
+        if h is None:
+            continue
+        vp = h.value_param()
+        empties = {(f"'' == {vp}", True), (f"{vp} == ''", True), (f"bool({vp})", False), (f"len({vp}) == 0", True), (f"0 == len({vp})", True), (f"len({vp}) < 1", True), (f"0 < len({vp})", False), (f"len({vp}) > 0", False)}
+        rps, _ = h.return_paths()
+        for pth, rtxt, sc in rps:
+            if rtxt not in ("self.enforce_required(None)", "None"):
+                continue
+            n += 1
+            facts = set(sc.items())
+            if facts & empties:
+                rep.check("T-R11", f"{name}.convert[str]:None-only-for-empty", True, "", tloc(p, h.fn))
+                continue
+            about_copy = [a for a, w in sc.items() if vp in a and any(m_ in a for m_ in (".strip(", ".lstrip(", ".rstrip(", ".replace(", ".split(", ".isspace(", ".translate("))]
+            if about_copy:
+                rep.check("T-R11", f"{name}.convert[str]:None-only-for-empty", False, f"{name}.convert returns None on a path decided by `{about_copy[0][:50]}` - a test of a transformed copy of the text, true for texts that are not empty (' ', '\\t'): whitespace-only element data is read as absent although the writer emits it and the document holds it", tloc(p, h.fn))
+            else:
+                rep.note(f"T-R11 undecided: {name}.convert returns None under {sorted(sc)[:3]}")
+    rep.unit("none_returning_paths", n)
+    if n == 0:
+        rep.note("T-R11 undecided: no reader path returns enforce_required(None)")
